@@ -2,7 +2,7 @@
    Only statements closed by `exact`, each followed by Print Assumptions. *)
 From Coq Require Import ZArith List Bool.
 From MV Require Import Topo.CheckMeshDefs Topo.CheckMesh Topo.PipelineDefs Topo.Pipeline Topo.HalfedgeDefs Topo.HalfedgeSmall
-  Topo.EdgeOpsDefs Topo.EdgeOps Topo.PipelineRows Topo.Gate Topo.Compaction.
+  Topo.EdgeOpsDefs Topo.EdgeOps Topo.PipelineRows Topo.Gate Topo.Compaction Topo.UmbrellaDefs Topo.Umbrella.
 From Coq Require Import Permutation Sorted.
 Import ListNotations.
 Local Open Scope Z_scope.
@@ -227,3 +227,34 @@ Example compaction_example :
                | None => False end
   | None => False end.
 Proof. vm_compute. repeat split; reflexivity. Qed.
+
+(* Round 4: the oracle also decides VERTEX-manifoldness.  Closed2Manifold above is edge-manifoldness
+   (every directed edge once, its reverse once); a pinched vertex - two cones meeting only in their
+   apex, e.g. Revolve of a contour that touches the axis in one vertex - satisfies it although the
+   surface is not a 2-manifold there (and V - E + T need not be even).  Closed2ManifoldV adds: for
+   every vertex v < nV the triangles at v form ONE fan, i.e. the neighbours of v can be listed without
+   repetition as a cycle a0..a(d-1) such that the link of v (one directed edge x->y per triangle that
+   reads (v,x,y) after rotation) is exactly {a0->a1, ..., a(d-1)->a0}.  The executable checker (one
+   pass grouping the link edges by vertex, then a walk of d steps per vertex) decides it exactly, for
+   every nV and triangle list. *)
+Theorem check_mesh_v_iff :
+  forall (nV : Z) (tris : list (Z * Z * Z)),
+    check_mesh_v nV tris = true <-> Closed2ManifoldV nV tris.
+Proof. exact check_mesh_v_iff_lemma. Qed.
+Print Assumptions check_mesh_v_iff.
+
+Theorem check_vertex_manifold_iff :
+  forall (nV : Z) (tris : list (Z * Z * Z)),
+    check_vertex_manifold nV tris = true <->
+    (forall v, 0 <= v < nV -> exists cyc, cyc <> [] /\ NoDup cyc /\ Permutation (link v tris) (cyc_edges cyc)).
+Proof. exact check_vertex_manifold_iff_lemma. Qed.
+Print Assumptions check_vertex_manifold_iff.
+
+(* both outcomes occur: the tetrahedron is vertex-manifold; two tetrahedra sharing only vertex 0 are
+   edge-manifold (check_mesh accepts) but not vertex-manifold *)
+Example vertex_manifold_tetra : check_mesh_v 4 [(0,2,1); (0,3,2); (0,1,3); (1,2,3)] = true.
+Proof. vm_compute. reflexivity. Qed.
+Example pinched_vertex_rejected :
+  let t := [(0,2,1); (0,3,2); (0,1,3); (1,2,3); (0,5,4); (0,6,5); (0,4,6); (4,5,6)] in
+  check_mesh 7 t = true /\ check_vertex_manifold 7 t = false.
+Proof. exact pinched_example. Qed.
